@@ -808,9 +808,9 @@ func keepaliveScenarios(tier string) []weighted {
 		// a control frame after a data message, two control frames: only the last unit counts
 		{true, "2:T 3:I", false, 0}, {true, "2:I 3:O", false, 0}, {true, "3:O 3:T", false, 0}, {true, "2:I 3:I", false, 0}, {true, "2:B 2:B", false, 0},
 		// control frames arriving exactly at / after the deadline
-		{true, "4:I", true, 0}, {true, "5:I", false, 0}, {true, "4:O", false, 0}, {true, "5:O", false, 0}, {true, "4:B", false, 0}, {true, "0:I", false, 0}, {true, "0:O", false, 0},
+		{true, "4:I", false, 0}, {true, "5:I", false, 0}, {true, "4:O", false, 0}, {true, "5:O", false, 0}, {true, "4:B", false, 0}, {true, "0:I", false, 0}, {true, "0:O", false, 0},
 		// a control-frame handler that takes virtual time: the keep-alive time counts from its end
-		{true, "2:I", true, 2}, {true, "2:O", false, 2},
+		{true, "2:I", false, 2}, {true, "2:O", false, 2},
 		// fragmented message: first fragment at +2s (completes nothing), last fragment 1 s later
 		// (message handled at +3s: close at +7s); first fragment alone; last fragment too late
 		{true, "2:F 1:C", true, 0}, {true, "2:F", true, 0}, {true, "2:F 3:C", false, 0}, {true, "2:F 2:C", false, 0},
@@ -831,10 +831,13 @@ func keepaliveScenarios(tier string) []weighted {
 		for _, b := range wsKinds {
 			klists = append(klists, kl{true, "2:" + a + " 3:" + b, true, 0, true, defaultWSKA, false})
 			for _, c := range wsKinds {
-				klists = append(klists, kl{true, "2:" + a + " 3:" + b + " 3:" + c, a != "B" && b != "B" && c != "B" && (a != b || b != c), 0, true, defaultWSKA, false})
+				// quick: the three cyclic orders of text, ping, pong
+				t := a + b + c
+				klists = append(klists, kl{true, "2:" + a + " 3:" + b + " 3:" + c, t == "TIO" || t == "IOT" || t == "OTI", 0, true, defaultWSKA, false})
 			}
 		}
 	}
+	klists = append(klists, kl{true, "2:I", true, 2, true, defaultWSKA, false}, kl{true, "4:I", true, 0, true, defaultWSKA, false}, kl{true, "4:O", true, 0, true, defaultWSKA, false})
 	for _, x := range []string{"2:F 1:C 3:I", "1:F 2:I 2:C", "1:F 2:O 2:C 3:T", "2:F 1:M 1:C", "2:I 3:F 1:C", "2:F 1:M", "2:T 3:F", "2:I 3:I 3:I 3:I"} {
 		klists = append(klists, kl{true, x, true, 0, true, defaultWSKA, false})
 	}
@@ -884,7 +887,9 @@ func keepaliveScenarios(tier string) []weighted {
 		for _, m := range modes {
 			// free choices (every order at blocking points, ties) plus one offered mid-exchange firing
 			p, d := 0, 1
-			if thorough && len(steps) == 1 && x.work == 0 {
+			if thorough && len(steps) == 1 && x.work == 0 && steps[0].gap != x.wska {
+				// (a unit that arrives at the very instant of the deadline multiplies the outcomes:
+				// free choices and one offered firing only)
 				p = 1
 			}
 			complete := 0
